@@ -57,6 +57,7 @@ func newLister(ctx context.Context, log logutil.Log, stopch <-chan struct{}, per
 		ctx:      ctx,
 	}
 
+	verifTrace(l, "lister.new", period)
 	go l.lc.WatchContext(ctx)
 	go l.lc.WatchChannel(stopch)
 
@@ -86,25 +87,30 @@ func (l *_lister) run() {
 	runch, donech := l.list()
 
 	ticker := newTicker(l.period, defaultRefreshFuzz)
+	verifTrace(l, "lister.ticker", ticker)
 	var tickch <-chan int
 
 mainloop:
 	for {
 		select {
 		case <-tickch:
+			verifTrace(l, "lister.tick")
 			runch, donech = l.list()
 			tickch = nil
 
 		case result = <-runch:
+			verifTrace(l, "lister.result", result.list, result.err)
 			resultch = l.resultch
 			runch = nil
 
 		case resultch <- result:
+			verifTrace(l, "lister.delivered")
 			ticker.Reset()
 			resultch = nil
 			tickch = ticker.Next()
 
 		case err := <-l.lc.ShutdownRequest():
+			verifTrace(l, "lister.stopping", err)
 			l.lc.ShutdownInitiated(err)
 			break mainloop
 		}
@@ -113,12 +119,14 @@ mainloop:
 	ticker.Stop()
 	<-ticker.Done()
 	<-donech
+	verifTrace(l, "lister.done")
 }
 
 func (l *_lister) list() (<-chan listResult, <-chan struct{}) {
 	runch := make(chan listResult, 1)
 	donech := make(chan struct{})
 	ctx, cancel := context.WithCancel(l.ctx)
+	verifTrace(l, "lister.list")
 
 	go func() {
 		defer cancel()
